@@ -77,7 +77,7 @@ func TestCheck(t *testing.T) {
 	}()
 	gspec.EnableInterruptHook()
 	ctx := context.Background()
-	n := int64(cfg.Pick(12, 80))
+	n := int64(cfg.Pick(60, 80))
 	rep.Cases(n, func(idx int64, rng *mon.Rand) {
 		mode := gspec.Mode(idx % 3)
 		spec := gspec.Gen(rng, genOpts(rng, cfg, mode))
